@@ -32,6 +32,12 @@ for s in $seeds; do
   [ "$s" = "C05-h" ] && ids=C06
   [ "$s" = "C13-h" ] && ids=C12
   [ "$s" = "C18-h" ] && ids=C17
+  [ "$s" = "C01-i" ] && ids=C10
+  [ "$s" = "C03-i" ] && ids=C06
+  [ "$s" = "C05-i" ] && ids=C13
+  [ "$s" = "C09-i" ] && ids=C01
+  [ "$s" = "C14-i" ] && ids=C06
+  [ "$s" = "C18-i" ] && ids=C17
   if grep -q '"retired"' /verif/seeded/$s/meta.json; then echo "$s: retired (see meta.json)"; continue; fi
   git -C $WT checkout -q -- . ; git -C $WT clean -fdq
   if ! git -C $WT apply /verif/seeded/$s/patch.diff 2>/dev/null; then echo "$s: PATCH DOES NOT APPLY"; miss=$((miss+1)); continue; fi
